@@ -207,9 +207,11 @@ fn pipeline_family(mut chk: Check) -> ! {
         _ => "accepted applications with fallible constructors/middlewares/handlers x plans failing one component; oracle: dependants of the failed value do not run, the designated error handler runs exactly once on that error, the observers registered before the route run once each in order after it and before later post-processors, the client sees the error handler's response. non-trivial = failure of a constructor shared by >=2 components, or inside a wrapped pipeline, or >=2 observers".to_string(),
     };
     chk.ev.assume("docs generated with the installed `nightly` toolchain and locally built std/core/alloc JSON docs (rust-docs-json component is not installed)");
-    let (n_rounds, k_per_round, n_lanes) = match tier {
-        Tier::Quick => (3usize, 6usize, 3usize),
-        Tier::Thorough => (60, 8, 6),
+    let (n_rounds, k_per_round, n_lanes) = match (tier, prop.as_str()) {
+        (Tier::Quick, "C02") => (9usize, 8usize, 3usize),
+        (Tier::Quick, _) => (6, 6, 3),
+        (Tier::Thorough, "C02") => (150, 8, 6),
+        (Tier::Thorough, _) => (90, 8, 6),
     };
     if let Some(p) = chk.settings.replay.clone() {
         replay_pipeline(&mut chk, &p);
@@ -271,6 +273,10 @@ fn evaluate_round(chk: &mut Check, prop: &str, specs: &[AppSpec], out: &RoundOut
             if !accepted {
                 let v = out.individual[k].as_ref().unwrap();
                 let sig = v.signature();
+                if chk.known.open_entry("C02", &format!("rejected:{sig}")).is_some() {
+                    *chk.ev.known_hits.entry(format!("rejected:{sig}")).or_insert(0) += 1;
+                    continue;
+                }
                 let (small, v2) = shrink_verdict(spec, &sig);
                 let v = v2.as_ref().unwrap_or(v);
                 save_violation(chk, "abiding", &format!("rejected:{sig}"), &format!("a rule-abiding application was rejected ({} shrunk from {} to {} registrations):\n{}", sig, count_regs(spec), count_regs(&small), v.brief()), &small, json!({"k": k}));
